@@ -109,6 +109,22 @@ class Cases:
             if rng.random() < 0.05:
                 idx = idx[:-1]
             add(("Indexed", [A, C.MultiIndex(tuple(idx))]))
+        # index a tensor-valued index sum / component tensor with the index object it binds itself
+        for _ in range(2):
+            i = rng.choice(G.idxpool)
+            n = G.idxdim[i]
+            T = G.expr((n,), (i,), rng.randint(0, 2))          # vector with free index i
+            try:
+                S = C.IndexSum(T, C.MultiIndex((i,)))
+                add(("Indexed", [S, C.MultiIndex((i,))]))
+                add(("Indexed", [S, C.MultiIndex((C.FixedIndex(0),))]))
+                j2 = G.index(avoid=(i,), dim=n)
+                add(("Indexed", [S, C.MultiIndex((j2,))]))
+                CT = C.ComponentTensor(self.scalar((i,), depth=1), C.MultiIndex((i,)))
+                add(("Indexed", [CT, C.MultiIndex((i,))]))
+                add(("Indexed", [CT + CT * 2, C.MultiIndex((i,))]))
+            except Exception:
+                pass
         for _ in range(3):
             fi = self.some_fi(rng.choice([1, 2]))
             a = self.scalar(fi, depth=rng.randint(0, 3))
